@@ -33,6 +33,14 @@ Streams (S3, model vs implementation)
   fragment-vs-general  model against model, inside the driver: the header fragment of Msg/HeaderCode.lean against the
                      general code model of the wire codec (Wire/Code.lean, C01/C02) on the signature yyyyuua(yv),
                      for every header built and every message parsed above (`gen=` in the driver's answers)
+  general-build / general-parse / general-forward   (extension 2026-09-30) the message model whose header goes through the
+                     GENERAL code model of the wire codec (`Code.marshal` / `Code.unmarshal` on `_headerFormat`: what
+                     message.py really calls; Msg/General.lean: `constructG`, `parseMessageG`, `forwardG`; driver ops
+                     `buildg` / `parseg` / `forwardg`) against the real code - on every case of build / construct-malformed,
+                     of parse-own / parse-foreign / parse-foreign-containers / parse-wrongtype, and of the forwarding step
+                     (own bytes, reference bytes incl. the ones with container-typed unknown fields).  No fragment: a case the
+                     specialised model calls "outside" is compared like any other.  `forwardg` certifies each case inside the
+                     hypotheses of `forward_parse` (`cert=`) and re-checks the theorem's conclusion on it (`thm=`)
 Oracle (S4, implementation only; nothing from the model) - only what C03's statement says:
   * wf_parse (strict structural parser written from the specification, incl. its header-field type table and required
     fields) accepts rawMessage; type code, flag bits, version, body length word; the serial in the bytes is the object's
@@ -62,11 +70,17 @@ except Exception:                       # pragma: no cover - the local generator
     gv = None
 
 STREAMS = ['build', 'wire-codec', 'construct-malformed', 'parse-own', 'spec-bytes', 'parse-foreign', 'parse-foreign-containers',
-           'parse-wrongtype', 'fragment-vs-general', 'remarshal-parsed', 'tables-immutable']
+           'parse-wrongtype', 'fragment-vs-general', 'remarshal-parsed', 'tables-immutable',
+           'general-build', 'general-parse', 'general-forward']
 THEOREMS = ['marshal_wellformed', 'serial_fresh', 'parse_marshal', 'parse_foreign', 'cannot_construct',
             'constructed_from_arguments', 'parse_foreign_of_constructed',
             'parse_marshal_c01', 'parse_marshal_c01_checked', 'parse_marshal_c01_checked_none', 'parse_marshal_no_body',
-            'parse_foreign_with_C02', 'parse_foreign_of_constructed_c01', 'body_in_place']
+            'parse_foreign_with_C02', 'parse_foreign_of_constructed_c01', 'body_in_place',
+            'headerCode_eq_general_decode', 'headerCode_eq_general_encode', 'headerCode_encode_fragment', 'pad_agree',
+            'construct_general_eq', 'parse_general_eq', 'parse_general_of_ok', 'marshal_wellformed_general',
+            'parse_marshal_general', 'parse_foreign_general', 'parse_foreign_containers',
+            'remarshal_parse', 'forward_parse', 'remarshal_general_eq', 'forward_drops_field_outside_table',
+            'headerCode_outside_fragment', 'general_result_shape']
 TRUSTED_BASE = [
     'message body bytes: the model takes the bytes marshal.marshal produced as an input (opaque body codec; '
     'C01/C02 own the codec model), and the theorems take the codec round trip as a named hypothesis',
@@ -796,6 +810,37 @@ def parse_line(raw, fds):
     return 'parse %s %s' % (hexs(raw), 'N' if fds is None else ('-' if not fds else ','.join(str(f) for f in fds)))
 
 
+GENERAL_PARSE = []      # (input for reports, raw, fds, implementation view, tolerate a body-stage failure) - flushed by run / replay
+
+
+def general_parse_later(inp, raw, fds, v, body_tolerant=False):
+    GENERAL_PARSE.append((inp, raw, fds, v, body_tolerant))
+
+
+def flush_general_parse(ctx, message):
+    """Stream general-parse: `parseMessageG` (header decoded by the general code model) against the real parseMessage on
+    everything the parse streams looked at - no fragment, no `via=`."""
+    items = list(GENERAL_PARSE)
+    del GENERAL_PARSE[:]
+    if not items:
+        return
+    out = ctx.model(['parseg' + parse_line(raw, fds)[len('parse'):] for _, raw, fds, _, _ in items])
+    for i, (inp, raw, fds, v, tolerant) in enumerate(items):
+        ctx.case('general-parse', sample=None)
+        if out is None:
+            continue
+        mv = view_from_model(out[i])
+        if mv == v:
+            continue
+        if mv.get('err') == 'Exception':
+            ctx.stat('general-parse:model-Exception')       # PyErr.other: a shape the model does not cover at all
+            continue
+        if tolerant and mv.get('ok') and not v['ok'] and body_stage_error(message, raw, fds):
+            continue
+        ctx.disagree('general-parse', inp if isinstance(inp, dict) else {'kind': 'raw', 'raw': hexs(raw), 'fds': fds},
+                     mv, v, detail='parseMessageG (header through the general code model Code.unmarshal) vs the real parseMessage')
+
+
 def view_from_model(line):
     d = kv(line)
     if d['_head'] == 'err':
@@ -1094,6 +1139,13 @@ def g_foreign_extra(rng, basic_only):
     return out
 
 
+def g_foreign_extra_container(rng):
+    while True:
+        for code, t, val in g_foreign_extra(rng, False):
+            if len(t) > 1 or t == 'v':
+                return code, t, val
+
+
 def foreign_fields(x, nfds, rng, extra):
     fields = [(code, sig, val) for code, (sig, val) in sorted(x_fields(x, nfds).items())]
     fields += extra
@@ -1212,11 +1264,18 @@ def g_malformed(rng, marshal):
 def run_build_stream(ctx, marshal, message, stream, cases):
     lines = [build_line(x, premarshal(marshal, x), real_max(message, x)) for x in cases]
     out = ctx.model(lines)
+    gout = ctx.model(['buildg' + ln[len('build'):] for ln in lines])      # the same calls through `constructG`
     results = []
     for i, x in enumerate(cases):
         obs, m, oob_after = judge_build(ctx, marshal, message, stream, x, out[i] if out is not None else None)
         check_tables(ctx, message, public(x))
         ctx.case(stream, sample=public(x), nontrivial=nontrivial(x))
+        ctx.case('general-build', sample=None, nontrivial=nontrivial(x))
+        if gout is not None:
+            go = build_obs_from_model(gout[i])
+            if go != obs:
+                ctx.disagree('general-build', public(x), go, obs,
+                             detail='constructG (header through the general code model Code.marshal) vs the real constructor')
         results.append((x, obs, m, oob_after))
     return results
 
@@ -1323,6 +1382,7 @@ def run_parse_own(ctx, message, built):
         v, pm = parse_real(message, m.rawMessage, oob)
         ctx.impl_trace()
         ctx.case('parse-own', sample=None, nontrivial=nontrivial(x))
+        general_parse_later(public(x), m.rawMessage, oob, v)
         if out is not None:
             mv = view_from_model(out[i])
             if mv != v:
@@ -1393,6 +1453,9 @@ def run_foreign_cases(ctx, message, cases):
     # the forwarding step on the reference bytes (basic-typed fields only: the model re-encodes the known fields)
     run_remarshal(ctx, message, [(foreign_input(cases[i][0], cases[i][1], cases[i][2], cases[i][3]), enc[i][0], enc[i][1])
                                  for i in idx if not any(c == 9 for c, _, _ in cases[i][3])][:len(idx) // 2])
+    # ... and through the general model: every case, container-typed unknown fields and UNIX_FDS included
+    run_general_forward(ctx, message, [(foreign_input(c[0], c[1], c[2], c[3]), enc[i][0], enc[i][1])
+                                       for i, c in enumerate(cases)][:max(1, (2 * len(cases)) // 3)])
     # parse-foreign
     pout = ctx.model([parse_line(e[0], e[1]) for e in enc])
     pos = {i: i for i in range(len(cases))}
@@ -1408,6 +1471,7 @@ def run_foreign_cases(ctx, message, cases):
         ctx.impl_trace()
         stream = 'parse-foreign' if basic else 'parse-foreign-containers'
         ctx.case(stream, sample=inp, nontrivial=True)
+        general_parse_later(inp, raw, fds, v)
         ctx.stat('foreign:%s:%s:extra=%d' % ('BE' if big else 'LE', x['cls'], len(fields) - len(x_fields(x, len(fds)))))
         ctx.stat('foreign:%s:flags=%d' % (x['cls'], flags))
         ctx.stat('foreign:%s:sender=%s:fds=%d' % (x['cls'], x['sender'] is not None, min(len(fds), 2)))
@@ -1455,12 +1519,18 @@ def run_wrongtype(ctx, marshal, message, n):
         big = rng.random() < 0.5
         fds = expected_fds(x)
         fields = foreign_fields(x, len(fds), rng, g_foreign_extra(rng, True))
-        kind = rng.choice(['type', 'type', 'type', 'dup', 'mtype', 'trunc', 'order'])
+        kind = rng.choice(['type', 'type', 'type', 'dup', 'mtype', 'trunc', 'order', 'ctype'])
         mtype = MTYPE[x['cls']]
         if kind == 'type' and fields:
             i = rng.randrange(len(fields))
             c = rng.choice('ybnqiuxtdsog')
             fields[i] = (fields[i][0] if rng.random() < 0.8 else 8, c, g_basic_val(rng, c))
+        elif kind == 'ctype' and fields:
+            # a KNOWN header field whose variant holds a container (extension 2026-09-30): the specialised model answers
+            # "outside the fragment"; stream general-parse (parseMessageG) compares it like any other message
+            i = rng.randrange(len(fields))
+            _, t, val = g_foreign_extra_container(rng)
+            fields[i] = (fields[i][0], t, val)
         elif kind == 'dup' and fields:
             code, sg, val = rng.choice(fields)
             fields.insert(rng.randrange(len(fields) + 1), (code, sg, g_basic_val(rng, sg)))
@@ -1480,6 +1550,8 @@ def run_wrongtype(ctx, marshal, message, n):
         ctx.impl_trace()
         ctx.case('parse-wrongtype', sample=None)
         ctx.stat('wrongtype:%s:%s' % (kind, 'ok' if v['ok'] else v['err']))
+        general_parse_later({'kind': 'raw', 'raw': hexs(raw), 'fds': fds, 'what': kind}, raw, fds, v,
+                            body_tolerant=kind in ('type', 'dup', 'trunc', 'order', 'ctype'))
         if out is not None:
             mv = view_from_model(out[i])
             # body decoding errors belong to the codec model (C01/C05): once the header is through, compare the header part
@@ -1489,9 +1561,12 @@ def run_wrongtype(ctx, marshal, message, n):
                 # codec that Msg/HeaderCode.lean models (the general codec is C01/C02/C05's model)
                 ctx.stat('wrongtype:outside-fragment')
                 continue
-            if mv != v and not (mv.get('ok') and not v['ok'] and kind in ('type', 'dup', 'trunc', 'order')
+            if mv != v and not (mv.get('ok') and not v['ok'] and kind in ('type', 'dup', 'trunc', 'order', 'ctype')
                                 and body_stage_error(message, raw, fds)):
                 ctx.disagree('parse-wrongtype', {'kind': 'raw', 'raw': hexs(raw), 'fds': fds, 'what': kind}, mv, v)
+    # the forwarding step on these messages through the general model (no fragment: any value in any attribute)
+    run_general_forward(ctx, message, [({'kind': 'raw', 'raw': hexs(raw), 'fds': fds, 'what': kind}, raw, fds)
+                                       for raw, fds, kind in raws][:max(1, len(raws) // 2)])
 
 
 def body_stage_error(message, raw, fds):
@@ -1560,6 +1635,46 @@ def run_remarshal(ctx, message, items):
             mo = {'ok': True, 'raw': d.get('raw')} if d['_head'] == 'ok' else {'ok': False, 'err': d.get('kind')}
             if mo != impl and mo.get('err') != 'Exception':
                 ctx.disagree('remarshal-parsed', rin, mo, impl)
+
+
+def run_general_forward(ctx, message, items):
+    """Stream general-forward: the bus's forwarding step through `parseMessageG` / `forwardG` (no fragment) against the real
+    code; every case certified inside the hypotheses of `forward_parse` (or counted as outside), conclusion re-checked."""
+    if not forwarding_api(message) or not items:
+        ctx.case('general-forward', sample=None, n=1)
+        return
+    senders = [':1.%d' % ctx.rng.randrange(1, 500) for _ in items]
+    out = ctx.model(['forwardg %s %s' % (parse_line(raw, fds)[len('parse '):], opt_s(snd))
+                     for (inp, raw, fds), snd in zip(items, senders)])
+    for i, ((inp, raw, fds), snd) in enumerate(zip(items, senders)):
+        try:
+            p = message.parseMessage(raw, fds)
+            p.sender = snd
+            p.endian = raw[0]
+            forward(message, p, P.raw_parts(p, raw)[2])
+            impl = {'ok': True, 'raw': hexs(p.rawMessage)}
+        except Exception as e:
+            impl = {'ok': False, 'err': exc_name(e)}
+        ctx.impl_trace()
+        ctx.case('general-forward', sample=None)
+        if out is None:
+            continue
+        rin = dict(inp, kind2='remarshal', sender=snd) if isinstance(inp, dict) else {'raw': hexs(raw), 'fds': fds, 'sender': snd}
+        d = kv(out[i])
+        mo = {'ok': True, 'raw': d.get('raw')} if d['_head'] == 'ok' else {'ok': False, 'err': d.get('kind')}
+        if mo.get('err') == 'Exception':
+            ctx.stat('general-forward:model-Exception')
+            continue
+        if mo != impl:
+            ctx.disagree('general-forward', rin, mo, impl,
+                         detail='forwardG (header through the general code model) vs the real parse / _marshal(False, rawBody=...)')
+        cert, thm = d.get('cert'), d.get('thm')
+        ctx.stat('general-forward:' + ('certified-inside-forward_parse' if cert == '1' else 'outside-forward_parse-hypotheses'))
+        if thm == '1':
+            ctx.stat('general-forward:theorem-conclusion-rechecked')
+        elif thm == '0':
+            ctx.disagree('general-forward', rin, 'thm=0', 'thm=1',
+                         detail='the evaluated model contradicts the conclusion of forward_parse on a case inside its hypotheses')
 
 
 def body_of(raw, big):
@@ -1731,6 +1846,7 @@ def replay_case(ctx, marshal, message, data):
                 return
             raw, inp = m.rawMessage, public(x)
         run_remarshal(ctx, message, [(inp, raw, fds)])
+        run_general_forward(ctx, message, [(inp, raw, fds)])
         return
     kind = data.get('kind', 'build')
     if kind == 'foreign':
@@ -1744,6 +1860,7 @@ def replay_case(ctx, marshal, message, data):
         out = ctx.model([parse_line(raw, data['fds'])])
         v, pm = parse_real(message, raw, data['fds'])
         ctx.case('parse-wrongtype', sample=None)
+        general_parse_later(data, raw, data['fds'], v, body_tolerant=True)
         if out is not None and view_from_model(out[0]).get('err') != 'Exception' and view_from_model(out[0]) != v \
                 and not body_stage_error(message, raw, data['fds']):
             ctx.disagree('parse-wrongtype', data, view_from_model(out[0]), v)
@@ -1768,6 +1885,7 @@ def replay(ctx, data):
     saved = get_next(message)
     try:
         replay_case(ctx, marshal, message, data['input'] if 'input' in data else data)
+        flush_general_parse(ctx, message)
     finally:
         set_next(message, saved)
 
@@ -1798,6 +1916,7 @@ def run(ctx):
         run_wire_codec(ctx, marshal, message, wcases)
         own = [(public(x), m.rawMessage, oob) for x, obs, m, oob in built if obs['ok'] and in_domain(x)]
         run_remarshal(ctx, message, own[:ctx.scale(quick=1500, thorough=30000)])
+        run_general_forward(ctx, message, own[:ctx.scale(quick=1500, thorough=30000)])
         mal = run_malformed(ctx, marshal, message, ctx.scale(quick=1500, thorough=50000))
         run_parse_own(ctx, message, mal)
         run_wire_codec(ctx, marshal, message, [x for x, _, _, _ in mal if len(x.get('body_line') or '') < 50000]
@@ -1808,5 +1927,7 @@ def run(ctx):
             run_serial_sequence(ctx, marshal, message, 150)
         if ctx.tier == 'thorough' and not ctx.widen:
             run_real_limit(ctx, marshal, message)
+        flush_general_parse(ctx, message)
     finally:
+        del GENERAL_PARSE[:]
         set_next(message, saved)
